@@ -7,6 +7,11 @@ CONSTANTS
   Dev_ownerAbsent = TRUE
   Dev_length = FALSE
   Dev_tableCache = TRUE
+  Dev_identity = TRUE
+  Dev_emBelowV4 = TRUE
+  Dev_encDirect = TRUE
+  Dev_sig = TRUE
+  Dev_cryptNoParams = TRUE
   Emit = FALSE
-INVARIANTS AuthUserSound AuthUserComplete AuthOwnerSound AuthOwnerComplete KeyAgreement NoKeyWithoutAuth Plaintext Shapes ImplDictRefines ImplKeyRefines ImplItemRefines ImplOpens ImplRejects LengthAgreement ImplLengthRefines ImplPrepRefines PrepMatters EmitInv
+INVARIANTS AuthUserSound AuthUserComplete AuthOwnerSound AuthOwnerComplete KeyAgreement NoKeyWithoutAuth Plaintext Shapes ImplDictRefines ImplKeyRefines ImplItemRefines ImplOpens ImplRejects LengthAgreement ImplLengthRefines ImplItemClasses FormAgreement ImplFormRefines ImplPrepRefines PrepMatters EmitInv
 CHECK_DEADLOCK FALSE
